@@ -485,7 +485,8 @@ func Schemas07(thorough bool) *Set {
 		s.Add("Psib", Obj(KV{"definitions", `{"d":true}`}, KV{"$ref", `"#/definitions/d"`}, a))
 	}
 	// applicators that themselves contain $ref with siblings
-	for _, a := range filter(atoms, "type", "required", "maximum") {
+	sibs := append(filter(atoms, "type", "required", "maximum"), KV{"not", `{}`}, KV{"not", `true`}, KV{"const", `12345`}, KV{"enum", `["zz"]`}, KV{"minItems", `9`}, KV{"maxProperties", `0`})
+	for _, a := range sibs {
 		inner := Obj(KV{"$ref", `"#/definitions/d"`}, a)
 		for _, k := range []string{"allOf", "anyOf", "oneOf"} {
 			s.Add("Psib", `{"definitions":{"d":{"type":["integer","object"]}},"`+k+`":[`+inner+`]}`)
@@ -493,6 +494,11 @@ func Schemas07(thorough bool) *Set {
 		s.Add("Psib", `{"definitions":{"d":{"type":["integer","object"]}},"not":`+inner+`}`)
 		s.Add("Psib", `{"definitions":{"d":{"type":["integer","object"]}},"items":[`+inner+`],"additionalItems":`+inner+`}`)
 		s.Add("Psib", `{"definitions":{"d":{"type":["integer","object"]}},"dependencies":{"a":`+inner+`}}`)
+		s.Add("Psib", `{"definitions":{"d":{"type":["integer","object","string"]}},"items":[{"type":"integer"}],"additionalItems":`+inner+`}`)
+		s.Add("Psib", `{"definitions":{"d":{"type":["integer","object","string"]}},"additionalProperties":`+inner+`,"properties":{"a":true}}`)
+		s.Add("Psib", `{"definitions":{"d":{"type":["integer","object","string"]}},"contains":`+inner+`}`)
+		s.Add("Psib", `{"definitions":{"d":{"type":["integer","object","string"]}},"propertyNames":`+inner+`}`)
+		s.Add("Psib", `{"definitions":{"d":{"type":["integer","object","string"]}},"if":`+inner+`,"then":{"type":"integer"},"else":false}`)
 	}
 	// $id beside $ref is ignored: the ref still resolves against the outer base
 	s.Add("Psib", `{"definitions":{"d":{"type":"integer"}},"properties":{"a":{"$id":"http://other/x.json","$ref":"#/definitions/d"}}}`)
